@@ -1,8 +1,37 @@
 (* C06 - the topic store implements MQTT filter matching over any subscribe history.
    Model: Topics/Model.v (memtopics.go); specification and statements: Topics/Spec.v.
    This file only closes statements with proved lemmas. *)
-From Topics Require Import Spec ProofsRefuted.
+From Topics Require Import Spec ProofsRefuted ProofsLevels ProofsTrie ProofsRetained.
 
+(* the splitter agrees with section 4.7 on filters without empty levels ... *)
+Theorem C06_levels_good : Spec.C06_levels_good.
+Proof. exact ProofsLevels.levels_good. Qed.
+Print Assumptions C06_levels_good.
+
+(* ... and refuses every filter that misuses a wildcard *)
+Theorem C06_invalid_refused : Spec.C06_invalid_refused.
+Proof. exact ProofsLevels.invalid_refused. Qed.
+Print Assumptions C06_invalid_refused.
+
+(* after any history the reported subscribers are exactly the held pairs whose filter matches *)
+Theorem C06_subscribers_partial : Spec.C06_subscribers_partial.
+Proof. exact ProofsTrie.subscribers_partial. Qed.
+Print Assumptions C06_subscribers_partial.
+
+Theorem C06_subscribe_result : Spec.C06_subscribe_result.
+Proof. exact ProofsTrie.subscribe_result. Qed.
+Print Assumptions C06_subscribe_result.
+
+Theorem C06_unsubscribe_result : Spec.C06_unsubscribe_result.
+Proof. exact ProofsTrie.unsubscribe_result. Qed.
+Print Assumptions C06_unsubscribe_result.
+
+(* the same relation selects the retained messages *)
+Theorem C06_retained_partial : Spec.C06_retained_partial.
+Proof. exact ProofsRetained.retained_partial. Qed.
+Print Assumptions C06_retained_partial.
+
+(* the full statement (empty levels included) is false of the faithful model: known finding F7 *)
 Theorem C06_empty_level_refuted : Spec.C06_empty_level_refuted.
 Proof. exact ProofsRefuted.empty_level_refuted. Qed.
 Print Assumptions C06_empty_level_refuted.
